@@ -932,6 +932,17 @@ def enum_inputs(d, rng, tier):
 def enum_compare(ws, enums, xl, tier, seed):
     """bitenum conversions: compiled code (dev, release) vs enum_new on the declaration vs the translated match"""
     import random
+
+    def numeric(d):
+        # an enum that should have been rejected (a discriminant that is not a literal) may be accepted by a changed macro:
+        # its verdict is reported; its conversions cannot be tabulated
+        try:
+            for v in d['variants']:
+                decls.discr_value(v)
+            return True
+        except (ValueError, TypeError):
+            return False
+    enums = [d for d in enums if numeric(d)]
     if not enums:
         return {'enums': 0, 'conversions': 0, 'mismatches': [], 'n_mismatches': 0}
     inputs = {}
@@ -1217,7 +1228,8 @@ def stage_behaviour(ws, ds, verdicts, xl):
     by_name = {d['name']: d for d in ds}
     acc = set(verdicts['accepted'])
     todo = [d for d in ds if d['kind'] == 'bitfield' and d['name'] in acc and d['name'] in xl and not d.get('unstructured')]
-    enums = [d for d in ds if d['kind'] == 'enum' and d['name'] in acc and d['name'] in xl]
+    enums = [d for d in ds if d['kind'] == 'enum' and d['name'] in acc and d['name'] in xl and d.get('macro_arg') is None
+             and all(v.get('discr') is not None or str(v.get('discr_text') or '').replace('_', '')[:1].isdigit() for v in d['variants'])]
     builders = set(d['name'] for d in todo if has_builder(xl[d['name']], d['name']))
     dropped = build_runner(ws, todo, by_name, enums, builders)
     todo = [d for d in todo if d['name'] not in dropped]
